@@ -34,16 +34,17 @@ type Set struct {
 	ns, stable, canary string
 
 	// shared derived state, updated on every write
-	ro            simapi.Obj // Rollout after the write (nil if gone)
-	phase         string
-	reason        string // Progressing condition reason
-	step          int
-	state         string
-	epoch         int
-	stableImg     string
-	targetImg     string
-	bgTarget      string // image the current BatchRelease was created for
-	c11StaleReady int
+	ro                    simapi.Obj // Rollout after the write (nil if gone)
+	phase                 string
+	reason                string // Progressing condition reason
+	step                  int
+	state                 string
+	epoch                 int
+	stableImg             string
+	targetImg             string
+	bgTarget              string // image the current BatchRelease was created for
+	c11StaleReady         int
+	brCreatedSinceRelease bool
 
 	st01 c01state
 	st02 c02state
@@ -214,9 +215,13 @@ func (s *Set) onWrite(w *simapi.Write, v *simapi.View) {
 		}
 	}
 	if w.Key.Kind == "BatchRelease" && w.Before == nil {
+		s.brCreatedSinceRelease = true
 		if wl := v.GetKey(s.S.WorkloadKey()); wl != nil {
 			s.bgTarget = workloadImage(wl)
 		}
+	}
+	if w.Actor == "user" && w.Key == s.S.WorkloadKey() && w.Before != nil && w.After != nil && workloadImage(w.Before) != workloadImage(w.After) {
+		s.brCreatedSinceRelease = false
 	}
 	s.count("writes_seen", 1)
 	if w.Key.Kind != "Pod" {
@@ -318,6 +323,14 @@ func (s *Set) c04(w *simapi.Write, v *simapi.View) {
 						if strings.HasPrefix(a, "jump:") {
 							how = "after-step-jump"
 						}
+						if strings.HasPrefix(a, "scale:") {
+							how = "after-user-scale"
+						}
+					}
+					if how == "after-user-scale" {
+						// which pods a workload controller removes on a user's scale-down is the environment's choice
+						s.count("c04_obs_pinned_stable_without_pods_after_user_scale", 1)
+						return
 					}
 					s.violate("C04", "c04:stable-service-pinned-to-revision-without-pods:"+how, fmt.Sprintf("stable Service %s is pinned to revision %s and receives traffic, but no live pod of that revision exists (pods by image: %v)", s.stable, pin, tot), w, nil)
 				}
